@@ -120,7 +120,10 @@ def gen_intr(rng, names):
             attr.append(tygen.type_text(dnode))
     if probes and rng.random() < 0.3:
         probes = sorted(rng.sample(probes, rng.randrange(1, len(probes) + 1)))
+    early = bool(union and rng.random() < 0.4)
     case = {"kind": "intr", "type": t, "probes": probes, "attrs": sorted(set(attr))}
+    if early:
+        case["early_offset"] = True
     if rng.random() < 0.4 and not union:
         # a service: the response section is a second schema of the same definition (same field counts are likely)
         r = tygen.gen_composite(rng, rng.choice([0, 1]), names, small_caps=True, allow_delim=False, force="struct")
@@ -166,6 +169,13 @@ def generate(rng, tier):
             b = {"o": "leaf", "v": base, "how": "set", "raw": False}
             cases.append({"kind": "fields", "type": t, "base": b, "plan": plan(rng, tygen.field_offset_ops(t, b), budget)})
             streams.append("targeted")
+    inner8 = {"k": "struct", "name": "ns.In8", "ver": [1, 0], "fs": [["v", u8]]}
+    for w, cap in [(1, 8), (4, 2), (12, 2), (2, 4), (3, 8), (1, 16)]:
+        e = {"k": "prim", "p": "bool"} if w == 1 else {"k": "prim", "p": "uint", "w": w, "c": "sat"}
+        for tail in ([["b", inner8], ["c", u8]], [["b", {"k": "fix", "e": inner8, "n": 2}]], [["b", inner8], ["c", {"k": "var", "e": inner8, "n": 2}], ["d", {"k": "prim", "p": "bool"}]]):
+            t = {"k": "struct", "name": names.fresh(), "ver": [1, 0], "fs": [["a", {"k": "var", "e": e, "n": cap}]] + tail}
+            cases.append({"kind": "intr", "type": t, "probes": list(range(len(t["fs"]) + 1)), "attrs": []})
+            streams.append("targeted")
     for i in range(n):
         names = tygen.NameGen()
         r = i % 10
@@ -173,6 +183,8 @@ def generate(rng, tier):
             t = tygen.gen_composite(rng, rng.choice([1, 2, 2, 3]), names)
             b = gen_base(rng)
             cases.append({"kind": "fields", "type": t, "base": b, "plan": plan(rng, tygen.field_offset_ops(t, b), budget)})
+            if rng.random() < 0.5:
+                cases[-1]["abandon"] = [rng.choice([0, 1, 1, 2])] + ([rng.choice([1, 2])] if rng.random() < 0.3 else [])
         elif r < 8:
             e = tygen.gen_type(rng, rng.choice([0, 1, 2]), names, in_array=True)
             cap = tygen.gen_capacity(rng, False)
@@ -213,6 +225,16 @@ def _run_impl_raw(cases):
                 T = tygen.build(case["type"])
                 base = tygen.build_bls(case["base"])
                 res = []
+                for k_ab in case.get("abandon", []):
+                    # an iteration that is started and abandoned after k_ab items (a `break`, a `next(iter(...))`,
+                    # a nested second iteration) must not influence later iterations
+                    it = T.iterate_fields_with_offsets(pydsdl.BitLengthSet(k_ab * 8))
+                    for _ in range(k_ab):
+                        if next(it, None) is None:
+                            break
+                    inner_it = T.iterate_fields_with_offsets()
+                    next(inner_it, None)
+                    del it, inner_it
                 for (f, off), pl in zip(T.iterate_fields_with_offsets(base), case["plan"] + [{"mods": [], "exp": False}] * 1000):
                     res.append({"name": f.name or None, "off": observe(off, pl)})
                 out.append({"fields": res})
@@ -233,6 +255,8 @@ def _run_impl_raw(cases):
                     top = "/".join(comps[:-1]) + "/%s.%d.%d.dsdl" % (comps[-1], inner["ver"][0], inner["ver"][1])
                     lines = []
                     if inner["k"] == "union":
+                        if case.get("early_offset"):
+                            lines.append("@print _offset_")
                         lines.append("@union")
                     for p in range(len(inner["fs"]) + 1):
                         if p in case["probes"]:
@@ -264,11 +288,16 @@ def _run_impl_raw(cases):
                     prints = []
                     pydsdl.read_files([d / top], [d / "ns"], [], print_output_handler=lambda path, line, text: prints.append((str(path), text)))
                     mine = [txt for pth, txt in prints if pth.endswith(top)]
+                    if case.get("early_offset"):
+                        mine = mine[1:]   # the probe before @union saw the empty schema; only the later values are compared
                     out.append({"prints": mine})
                 finally:
                     shutil.rmtree(d, ignore_errors=True)
         except Exception as ex:  # pylint: disable=broad-except
-            out.append({"error": type(ex).__name__, "text": str(ex)[:300]})
+            if case.get("early_offset") and isinstance(ex, pydsdl.InvalidDefinitionError):
+                out.append({"refused": True})   # referring to _offset_ before @union is refused by the unchanged tree
+            else:
+                out.append({"error": type(ex).__name__, "text": str(ex)[:300]})
     return out
 
 
@@ -286,6 +315,8 @@ FAIL = "[IAttr (TVoid 0) None None]"  # cannot succeed (wft (TVoid 0) = false)
 
 
 def emit(case, obs):
+    if obs.get("refused"):
+        return "[]"
     if "error" in obs:
         return FAIL
     if case["kind"] == "fields":
